@@ -49,6 +49,9 @@ Proof. unfold enumerate.
     cbn [filter snd]. rewrite Nat.sub_diag, E, <- IH. change (nth 0 (a :: L) d) with a. destruct (P a); reflexivity. }
   rewrite (G 0). apply filter_ext. intros p. rewrite Nat.sub_0_r. reflexivity. Qed.
 
+(* private helpers (module-level _name, methods _name) are registered in the hint database py_private by the translator: the
+   proofs about their callers look through them, whatever their names ([unfold_private], Theory/NetworkGenThm.v) *)
+
 Section SSGen.
 Variable K : fops.
 Hypothesis KOK : fops_ok K.
@@ -357,7 +360,7 @@ Proof. apply (row_for_potential_gen node _ (ss_D m) HD). Qed.
 Theorem c_row_voltage_eq id :
   py_state_space.NodalStateSpaceModel_c_row_voltage K self id
   = bind (c_row_voltage K n cvals lvals m id) (fun r => Ok {| a_cols := ss_nst K cvals lvals; a_rows := [r] |}).
-Proof. unfold py_state_space.NodalStateSpaceModel_c_row_voltage, c_row_voltage, row_voltage. cbn [m_network nssm_of].
+Proof. unfold py_state_space.NodalStateSpaceModel_c_row_voltage, c_row_voltage, row_voltage. unfold_private. cbn [m_network nssm_of].
   rewrite getitem_eq. destruct (get_branch bs id) as [b|]; cbn [bind]; [|reflexivity].
   rewrite !c_row_for_potential_eq. unfold c_row_for_potential.
   destruct (row_for_potential K n (node1 b) _ _) as [r1|]; cbn [bind]; [|reflexivity].
@@ -365,32 +368,18 @@ Proof. unfold py_state_space.NodalStateSpaceModel_c_row_voltage, c_row_voltage, 
 Theorem d_row_voltage_eq id :
   py_state_space.NodalStateSpaceModel_d_row_voltage K self id
   = bind (d_row_voltage K n lvals m id) (fun r => Ok {| a_cols := ss_nS K n lvals; a_rows := [r] |}).
-Proof. unfold py_state_space.NodalStateSpaceModel_d_row_voltage, d_row_voltage, row_voltage. cbn [m_network nssm_of].
+Proof. unfold py_state_space.NodalStateSpaceModel_d_row_voltage, d_row_voltage, row_voltage. unfold_private. cbn [m_network nssm_of].
   rewrite getitem_eq. destruct (get_branch bs id) as [b|]; cbn [bind]; [|reflexivity].
   rewrite !d_row_for_potential_eq. unfold d_row_for_potential.
   destruct (row_for_potential K n (node1 b) _ _) as [r1|]; cbn [bind]; [|reflexivity].
   destruct (row_for_potential K n (node2 b) _ _) as [r2|]; cbn [bind]; reflexivity. Qed.
 
-(* dict lookups *)
-Lemma dict_get_absent {V} (d : list (label * V)) k : ~ In k (map fst d) -> dict_get d k = None.
-Proof. induction d as [|[k' v] d IH]; simpl; [reflexivity|]. intros H. rewrite IH by tauto.
-  destruct (label_eqb_spec k' k); [tauto|reflexivity]. Qed.
+(* dict lookups (dict_get_absent, dict_item_enum: Theory/MatrixGenThm.v) *)
 Lemma dict_item_vlookup (d : list (label * K)) k : NoDup (map fst d) -> In k (map fst d) -> dict_item d k = Ok (vlookup K d k).
 Proof. unfold dict_item. induction d as [|[k' v] d IH]; simpl; intros NDd H; [destruct H|].
   inversion NDd as [|? ? Hn NDd']; subst. destruct (label_eqb_spec k' k) as [->|Ne].
   - rewrite (dict_get_absent d k Hn). reflexivity.
   - destruct H as [H|H]; [congruence|]. specialize (IH NDd' H). destruct (dict_get d k); [exact IH|discriminate]. Qed.
-Lemma dict_item_enum (l : list label) k : NoDup l -> In k l -> dict_item (combine l (seq 0%nat (length l))) k = Ok (lindex l k).
-Proof. intros NDl H. unfold dict_item.
-  assert (G : forall s, dict_get (combine l (seq s (length l))) k = Some (s + lindex l k)%nat).
-  { induction l as [|a l IH]; intros s; [destruct H|]. simpl. inversion NDl as [|? ? Hn NDl']; subst.
-    destruct (label_eqb_spec a k) as [->|Ne].
-    - rewrite dict_get_absent; [f_equal; lia|]. intros Hin. apply Hn.
-      clear -Hin. revert Hin. generalize (S s). induction l as [|x l IH]; intros s0 Hin; simpl in *; [destruct Hin|].
-      destruct Hin as [->|Hin]; [left; reflexivity|right; apply (IH _ Hin)].
-    - destruct H as [H|H]; [congruence|]. rewrite (IH NDl' H (S s)). f_equal. lia. }
-  rewrite (G 0%nat). reflexivity. Qed.
-
 Lemma vs_filter_ok :
   mapping_filter_res vs (fun x => bind (py_network.Network___getitem__ K n x) (fun t1 => Ok (py_elements.is_ideal_voltage_source K (el t1))))
   = Ok (combine vs (seq 0%nat (length vs))).
@@ -417,7 +406,7 @@ Definition current_row (id : label) (c : nat) (r : list K) : ndarr K :=
 Theorem c_row_current_eq id :
   py_state_space.NodalStateSpaceModel_c_row_current K self id
   = bind (c_row_current K n cvals lvals m id) (fun r => Ok (current_row id (ss_nst K cvals lvals) r)).
-Proof. unfold py_state_space.NodalStateSpaceModel_c_row_current, c_row_current, current_row.
+Proof. unfold py_state_space.NodalStateSpaceModel_c_row_current, c_row_current, current_row. unfold_private.
   cbn [m_network m_node_index_mapping m_voltage_source_index_mapping m_current_source_index_mapping m_c_values m_A m_C nssm_of].
   rewrite vs_filter_ok. cbn [bind]. unfold dict_mem, dict_keys, mapping_keys, mapping_N. change (map fst cvals) with (ckeys K cvals).
   destruct (lmem id (ckeys K cvals)) eqn:E1.
@@ -434,7 +423,7 @@ Proof. unfold py_state_space.NodalStateSpaceModel_c_row_current, c_row_current, 
 Theorem d_row_current_eq id :
   py_state_space.NodalStateSpaceModel_d_row_current K self id
   = bind (d_row_current K n cvals lvals m id) (fun r => Ok (current_row id (ss_nS K n lvals) r)).
-Proof. unfold py_state_space.NodalStateSpaceModel_d_row_current, d_row_current, current_row.
+Proof. unfold py_state_space.NodalStateSpaceModel_d_row_current, d_row_current, current_row. unfold_private.
   cbn [m_network m_node_index_mapping m_voltage_source_index_mapping m_current_source_index_mapping m_c_values m_B m_D nssm_of].
   unfold dict_mem, dict_keys, mapping_keys, mapping_N, mapping_index. change (map fst cvals) with (ckeys K cvals).
   destruct (lmem id (ckeys K cvals)) eqn:E1.
